@@ -4,7 +4,7 @@
    "<default>"), every Source.Local predicate, every configuration and every key order.  coq/gen/C27/PropsGen.v
    instantiates them with the table and source order TRANSLATED from the Go code on every run. *)
 From Coq Require Import List NArith Bool Permutation.
-From Verif.C27 Require Import Model Spec Proofs ProofsSorted ProofsCalls.
+From Verif.C27 Require Import Model Spec Proofs ProofsSorted ProofsCalls ProofsEnv.
 Import ListNotations.
 Open Scope N_scope.
 
@@ -130,7 +130,20 @@ Section Sorted.
     - exact (resolve_sorted_as_unsorted K R V keqb lower is_none known parse src_local kleb srcs fixed c).
     - exact (src_kvs_sortcfg K R kleb c).
   Qed.
+  (* MODEL MEETS SPEC: the boolean oracle of Spec.v (ok_err / ok_value, the one the correspondence run applies to the
+     implementation's observations) accepts the repaired model's error outcome and every parameter value it computes, for
+     every configuration and both key-order variants. *)
+  Variable veqb : V -> V -> bool.
+  Hypothesis veqb_refl : forall v, veqb v v = true.
+  Theorem c27_model_meets_spec : forall sorted (c : cfg K R),
+    ok_err keqb lower is_none known parse srcs src_local c (res_err (resolve' true sorted c)) = true
+    /\ forall st, resolve' true sorted c = Some st ->
+         forall lk m, known lk = Some m ->
+           ok_value keqb lower is_none known parse srcs src_local veqb c (pm_name m) (effective keqb st m) = true.
+  Proof. exact (model_meets_spec K R V keqb lower is_none known parse src_local kleb srcs keqb_eq known_name srcs_desc srcs_pos
+                  veqb veqb_refl). Qed.
 End Sorted.
+Print Assumptions c27_model_meets_spec.
 Print Assumptions c27_order_independent_sorted.
 Print Assumptions c27_sorted_last_spelling_wins.
 Print Assumptions c27_sorted_is_unsorted_on_sorted_cfg.
@@ -215,6 +228,14 @@ Print Assumptions c27_config_err_sticky.
 Print Assumptions c27_unchanged_config_reports_no_change.
 Print Assumptions c27_repeated_update_reports_no_change.
 Print Assumptions c27_config_update_message_decides.
+
+(* env_var_loader.go: the map LoadConfigFromEnvironment returns (model load_env, compared with the real function on every
+   run) has pairwise distinct, lower-case names: the environment source never holds two case-variant spellings of one
+   parameter, so the proviso of c27_order_independent always holds for it. *)
+Theorem c27_env_source_unambiguous : forall environ,
+  NoDup (map fst (load_env environ)) /\ NoDup (map (fun kv => lower_b (fst kv)) (load_env environ)).
+Proof. exact load_env_unambiguous. Qed.
+Print Assumptions c27_env_source_unambiguous.
 
 From Coq Require Import String.
 Open Scope string_scope.
